@@ -303,7 +303,18 @@ func c04GenGrid(c *mc.Ctx) *c04Case {
 		cs.Exs = append(cs.Exs, c04Ex{URL: c04URLs[urlIdx[i]], Status: c04Statuses[st[i]], Hdr: c04HeaderSet(hs[i], i), Body: c04Body(bl, i, c.Seed)})
 	}
 	cs.Big = total >= 65536
-	cs.Desc = fmt.Sprintf("%s n=%d url=%v body=%v hdr=%v st=%v primary=%d manifest=%d sig=%d", cs.Ver, n, urlIdx, bodyIdx, hs, st, p, m, sg)
+	// Identical responses under different URLs (two URLs serving the same 404 page or redirect
+	// stub): exchange tw gets exactly the status, headers and body of exchange 0.  A writer
+	// that shares or de-duplicates encoded responses must still emit a responses array with
+	// one item per exchange.
+	tw := 0
+	if n >= 2 {
+		tw = dev(n, "identical-response twin of exchange 0")
+		if tw > 0 {
+			cs.Exs[tw].Status, cs.Exs[tw].Hdr, cs.Exs[tw].Body = cs.Exs[0].Status, cs.Exs[0].Hdr, cs.Exs[0].Body
+		}
+	}
+	cs.Desc = fmt.Sprintf("%s n=%d url=%v body=%v hdr=%v st=%v primary=%d manifest=%d sig=%d twin=%d", cs.Ver, n, urlIdx, bodyIdx, hs, st, p, m, sg, tw)
 	return cs
 }
 
